@@ -87,7 +87,10 @@ KindPairs ==
     <<EsiLabelS(0, 16, 1), EsiLabelS(1, 1048575, 1)>>, <<MacMobility(0, <<0, 1>>), MacMobility(1, <<65535, 65535>>)>>,
     <<EsImport(<<0, 17, 34, 51, 68, 85>>), EsImport(<<255, 255, 255, 255, 255, 255>>)>>,
     <<RouterMac(<<0, 17, 34, 51, 68, 85>>), RouterMac(<<170, 187, 204, 221, 238, 1>>)>>}
-MultiPool == {Named("multi", p[1] \o p[2]) : p \in KindPairs} \cup {Named("multi", p[2] \o p[1]) : p \in KindPairs}
+MultiPool == {Named("multi", x) : x \in {RouteTarget0(1, <<0, 1>>) \o RouteTarget2(<<1, 4464>>, 7), RouteTarget2(<<1, 4464>>, 7) \o RouteTarget0(1, <<0, 1>>),
+                                         RouteOrigin0(65000, <<0, 1>>) \o RouteOrigin2(<<1, 4464>>, 2), RouteOrigin2(<<1, 4464>>, 2) \o RouteOrigin0(65000, <<0, 1>>),
+                                         RouteTarget1(<<10, 1, 2, 3>>, 1) \o RouteTarget0(65535, <<0, 1>>) \o RouteTarget2(<<1, 0>>, 1)}}
+             \cup {Named("multi", p[1] \o p[2]) : p \in KindPairs} \cup {Named("multi", p[2] \o p[1]) : p \in KindPairs}
              \cup {Named("multi", p[1] \o q[2] \o p[2]) : p, q \in {x \in KindPairs : x[1][1] \in {128, 0}}}
 \* standard communities: every well-known value the decoder names, their neighbours, and boundary values
 StdPool(lazy) == {Named("community", U32hl(<<65535, x>>)) : x \in {0, 1, 2, 3, 4, 5, 6, 665, 666, 667, 65280, 65281, 65282, 65283, 65284, 65285, 65535}}
